@@ -54,3 +54,73 @@ def run_file_check(chk, cfgs, sims=(), opts=None, judge=None, workers=12, replay
     chk.extra['name_dictionary'] = chk.seed % 6
     chk.assumptions += ['abstract names / types / attribute stamps are concretised through finite dictionaries (6 name dictionaries, chosen by VERIF_SEED)',
                         'trusted: TLC, harness/h_file.cpp (executor + observer), HDF5 1.10']
+
+
+# --------------------------------------------------------------------------- direction B: recorded random executions
+import json, os, re, shutil, subprocess
+from concurrent.futures import ThreadPoolExecutor
+
+def _validate(trace):
+    meta = '%s/tlc/%s' % (vcheck.BUILD, os.path.basename(trace))
+    os.makedirs(meta, exist_ok=True)
+    env = dict(os.environ); env['TRACE'] = trace
+    p = subprocess.run(['timeout', '900', 'java', '-XX:+UseParallelGC', '-Xmx3g', '-cp', vcheck.JAR, 'tlc2.TLC', '-workers', '1', '-noGenerateSpecTE',
+                        '-metadir', meta, '-config', 'MC_NixFileTrace.cfg', 'NixFileTrace.tla'], cwd=vcheck.SPEC, env=env, capture_output=True, text=True)
+    shutil.rmtree(meta, ignore_errors=True)
+    m = re.search(r'depth of the complete state graph search is (\d+)', p.stdout)
+    depth = int(m.group(1)) if m else 0
+    if 'Invariant NotAccepted is violated' in p.stdout:
+        return True, depth - 1, ''
+    if 'No error has been found' in p.stdout:
+        return False, depth - 1, ''
+    other = [l for l in p.stdout.split('\n') if l.startswith('Error:') or 'is violated' in l]
+    return False, depth - 1, '; '.join(other[:3]) or p.stdout[-800:]
+
+def run_traces(chk, judge_event, n_traces, steps, replay=None):
+    """records random API programs with the harness driver and validates them against NixFileTrace.tla.
+    judge_event(event) tells whether a rejected event belongs to this property's facet."""
+    binary = vcheck.ensure_build('plain')
+    tdir = '%s/work/traces-%s-%d' % (vcheck.BUILD, chk.pid, os.getpid())
+    os.makedirs(tdir, exist_ok=True)
+    params = []
+    if replay is not None:
+        params = [replay['driver']]
+    else:
+        for i in range(n_traces):
+            params.append({'steps': steps, 'seed': chk.seed * 1000 + i + 1, 'names': 3 + (i % 4), 'max_entities': 25 + 10 * (i % 3), 'dict': (chk.seed + i) % 6})
+    def one(prm):
+        trace = '%s/t%d.ndjson' % (tdir, prm['seed'])
+        rp = vcheck.Replayer(binary, seed=prm['dict'], opts={'names': prm['dict']}, jobs=1, chunk=1, timeout_per_line=600)
+        v = rp.single({'m': 'drive', 'steps': prm['steps'], 'seed': prm['seed'], 'names': prm['names'], 'max_entities': prm['max_entities'], 'trace': trace})
+        if v.get('v') != 'ok':
+            return prm, None, v, None
+        acc, matched, err = _validate(trace)
+        events = [json.loads(l) for l in open(trace)]
+        return prm, (acc, matched, err), v, events
+    try:
+        with ThreadPoolExecutor(8) as ex:
+            results = list(ex.map(one, params))
+        for prm, verdict, v, events in results:
+            if verdict is None:
+                if v.get('v') == 'crash':
+                    chk.violations.append(({'m': 'trace', 'driver': prm}, {'v': 'crash', 'what': 'the library crashed while the random driver ran: rc=%s' % v.get('rc')}))
+                    continue
+                raise vcheck.MachineryError('trace recorder failed: %r' % v)
+            acc, matched, err = verdict
+            judged = [e for e in events[:matched] if judge_event(e)]
+            case = {'m': 'trace', 'driver': prm, 'events': len(events), 'accepted_events': matched, 'judged_events': len(judged)}
+            chk.judged(case, n=max(1, len(judged)))
+            chk.traces_validated += 1
+            chk.extra['trace_events_validated'] = chk.extra.get('trace_events_validated', 0) + matched
+            if acc:
+                continue
+            if err and 'NotAccepted' not in err and matched >= len(events):
+                raise vcheck.MachineryError('trace validation error: ' + err)
+            bad = events[matched] if matched < len(events) else None
+            if bad is not None and (judge_event(bad) or err):
+                bad2 = dict(bad); bad2.pop('obs', None)
+                chk.violations.append((dict(case, rejected_event=bad2), {'v': 'rejected', 'what': 'recorded execution is not a behaviour of NixFile at event %d: %s %s' % (matched + 1, json.dumps(bad2)[:300], err)}))
+            else:
+                chk.extra['trace_rejections_outside_facet'] = chk.extra.get('trace_rejections_outside_facet', 0) + 1
+    finally:
+        shutil.rmtree(tdir, ignore_errors=True)
